@@ -410,3 +410,79 @@ func sentinelError(g *ssa.Global) bool {
 	sentinelCache[g] = res
 	return res
 }
+
+// msgCopyOf recognises "a fresh per-channel copy of message src": v is NewMessage(src.ID, src.Body), or the
+// result of a repo helper every return of which is NewMessage(p.ID, p.Body) for one of its parameters p
+// (e.g. a (*Message).clone method). It returns the call in the analysed function, the source message value
+// in that function, and (for helpers) the NewMessage calls inside the helper with the parameter they copy.
+type msgCopy struct {
+	Call   *ssa.Call
+	Src    ssa.Value
+	Helper *ssa.Function   // nil for a direct NewMessage
+	Inner  []*ssa.Call     // NewMessage calls inside Helper
+	Param  *ssa.Parameter  // the copied parameter of Helper
+}
+
+func msgCopyOf(v ssa.Value, newMsg *ssa.Function) *msgCopy {
+	v = an.Strip(v)
+	call, ok := v.(*ssa.Call)
+	if !ok {
+		return nil
+	}
+	directSrc := func(nc *ssa.Call) ssa.Value {
+		if len(nc.Call.Args) != 2 {
+			return nil
+		}
+		f0, b0 := an.LoadedField(an.Strip(nc.Call.Args[0]))
+		f1, b1 := an.LoadedField(an.Strip(nc.Call.Args[1]))
+		if f0 == nil || f1 == nil || f0.Name() != "ID" || f1.Name() != "Body" || !an.SameValue(b0, b1) {
+			return nil
+		}
+		return b0
+	}
+	if an.IsCallTo(call, newMsg) {
+		if src := directSrc(call); src != nil {
+			return &msgCopy{Call: call, Src: src}
+		}
+		return nil
+	}
+	h := an.StaticCallee(call)
+	if h == nil || len(h.Blocks) == 0 || h.Signature.Results().Len() != 1 {
+		return nil
+	}
+	mc := &msgCopy{Call: call, Helper: h}
+	for _, b := range h.Blocks {
+		ret, ok := b.Instrs[len(b.Instrs)-1].(*ssa.Return)
+		if !ok {
+			continue
+		}
+		for _, o := range an.Origins(ret.Results[0]) {
+			nc, ok := o.(*ssa.Call)
+			if !ok || !an.IsCallTo(nc, newMsg) {
+				return nil
+			}
+			src := directSrc(nc)
+			if src == nil {
+				return nil
+			}
+			par, ok := src.(*ssa.Parameter)
+			if !ok || (mc.Param != nil && mc.Param != par) {
+				return nil
+			}
+			mc.Param = par
+			mc.Inner = append(mc.Inner, nc)
+		}
+	}
+	if mc.Param == nil {
+		return nil
+	}
+	for i, p := range h.Params {
+		if p == mc.Param && i < len(call.Call.Args) {
+			mc.Src = call.Call.Args[i]
+		}
+	}
+	if mc.Src == nil {
+		return nil
+	}
+	return mc
+}
